@@ -1,7 +1,7 @@
 (* C08 — receiver NAKs are well-formed and ask for exactly what is missing.
    Pinned statements only (acknowledged-mode receive-transaction model). *)
 From CFDP Require Import Base.Prelude Model.Segments Model.Timer Model.TxTypes Model.Recv
-  Proofs.SegmentsP Proofs.RecvInv.
+  Proofs.SegmentsP Proofs.RecvInv Proofs.ImmediateP.
 
 (* The queue invariant N8 (every queued request is a non-empty range or the 0-0 marker; the
    marker only while the metadata is missing; segment list well-formed) holds initially and is
@@ -52,9 +52,27 @@ Example C08_nonvacuous :
   get_all_naks (set_r_fsize (Some 40) (store_file_data 10 [1; 2; 3] s0)) = [(0, 0); (0, 10); (13, 40)].
 Proof. split; [unfold DF, nak_idle; cbn; auto 10|vm_compute; reflexivity]. Qed.
 
+(* the immediate procedure: file data that starts beyond the end of what was held (before the EOF,
+   NAK timer not expired at that instant) reveals the gap [previous end, offset): with a zero delay
+   exactly that request is appended to the queue the next send opportunity draws from; with a
+   non-zero delay it is put on the delayed list under a timer of that delay, and the queue is left
+   alone (it is requested when the delay has elapsed if it persists: handle_timeout, ht_delayed) *)
+Theorem C08_immediate_gap_requested : forall FS fs_write_file fs_exec resp_fail not_performed cksum
+  now offset data delay (s : rstate FS),
+  r_phase s = RecvData -> r_nakproc s = Immediate delay -> eof_received s = false ->
+  snd (c_timeout_occurred now (t_nak (r_timer s))) = false ->
+  let prev_end := match seg_end (r_segs s) with Some e => e | None => 0 end in
+  prev_end < offset ->
+  let s' := pdu_filedata_acked FS fs_write_file fs_exec resp_fail not_performed cksum now offset data s in
+  if delay =? 0
+  then r_naks s' = r_naks s ++ [(prev_end, offset)] /\ r_delayed s' = r_delayed s
+  else r_naks s' = r_naks s /\ r_delayed s' = r_delayed s ++ [(new_delay_counter now delay, prev_end, offset)].
+Proof. exact immediate_gap_requested. Qed.
+
 Print Assumptions C08_queue_initial.
 Print Assumptions C08_queue_invariant.
 Print Assumptions C08_requests_inside_scope.
 Print Assumptions C08_nak_fits.
 Print Assumptions C08_exactly_what_is_missing.
 Print Assumptions C08_deferred_no_unsolicited_nak.
+Print Assumptions C08_immediate_gap_requested.
